@@ -2014,13 +2014,21 @@ impl QueryServer {
         // Point of no return - we now have a DB thread AND the read ticket, we MUST complete
         // as soon as possible! The following locks and elements below are SYNCHRONOUS but
         // will never be contented at this point, and will always progress.
+        #[cfg(feature = "verif-hooks")]
+        let _ = crate::verif_hooks::point("qs.r.schema");
         let schema = self.schema.read();
 
+        #[cfg(feature = "verif-hooks")]
+        let _ = crate::verif_hooks::point("qs.r.cid");
         let cid_max = self.cid_max.read();
         let trim_cid = cid_max.sub_secs(CHANGELOG_MAX_AGE)?;
 
+        #[cfg(feature = "verif-hooks")]
+        let _ = crate::verif_hooks::point("qs.r.be");
         let be_txn = self.be.read()?;
 
+        #[cfg(feature = "verif-hooks")]
+        let _ = crate::verif_hooks::point("qs.r.rest");
         Ok(QueryServerReadTransaction {
             be_txn,
             schema,
@@ -3003,6 +3011,8 @@ impl<'a> QueryServerWriteTransaction<'a> {
 
     #[instrument(level = "debug", name="qswt_commit" skip_all)]
     pub fn commit(mut self) -> Result<(), OperationError> {
+        #[cfg(feature = "verif-hooks")]
+        let _ = crate::verif_hooks::point("qs.c.start");
         self.reload()?;
 
         // Now destructure the transaction ready to reset it.
@@ -3040,7 +3050,11 @@ impl<'a> QueryServerWriteTransaction<'a> {
 
         // Write the cid to the db. If this fails, we can't assume replication
         // will be stable, so return if it fails.
+        #[cfg(feature = "verif-hooks")]
+        let _ = crate::verif_hooks::point("qs.c.ts_max");
         be_txn.set_db_ts_max(cid.ts)?;
+        #[cfg(feature = "verif-hooks")]
+        let _ = crate::verif_hooks::point("qs.c.cid");
         cid.commit();
 
         // We don't care if this passes/fails, committing this is fine.
@@ -3052,6 +3066,8 @@ impl<'a> QueryServerWriteTransaction<'a> {
         // Point of no return - everything has been validated and reloaded.
         //
         // = Lets commit =
+        #[cfg(feature = "verif-hooks")]
+        let _ = crate::verif_hooks::point("qs.c.publish");
         schema
             .commit()
             .map(|_| d_info.commit())
